@@ -13,7 +13,7 @@ open Cspuz.Proofs.C02Loop (eval_or_node)
 def OracleCorrect (O : Oracle) : Prop :=
   ∀ vars cs, (∀ σ, O vars cs = some σ → SatV vars cs σ) ∧ (O vars cs = none → ¬ ∃ σ, SatV vars cs σ)
 
-/-! ### the refuting clause -/
+/-! ### the refutingJ clause -/
 
 /-- the recorded answer has the type of the variable -/
 def Typed (e : Entry) : Prop := ∃ σ, valV σ e.v = e.ans
@@ -27,13 +27,15 @@ theorem eval_clauseExpr (σ : Asg) {e : Entry} (ht : Typed e) :
     simp only [valV] at hσ' ⊢
     subst hσ'
     simp [clauseExpr, evalOp, allBools, bne]
+    try (rw [Bool.eq_iff_iff]; simp)
   | int lo hi =>
     simp only [valV] at hσ' ⊢
     subst hσ'
     simp [clauseExpr, evalOp, allInts, cmpOp, bne]
+    try (rw [Bool.eq_iff_iff]; simp)
 
 theorem eval_refuting (σ : Asg) {es : List Entry} (ht : ∀ e ∈ es, Typed e) :
-    eval σ (refuting es) = some (.b true) ↔ ∃ e ∈ es, e.live = true ∧ valV σ e.v ≠ e.ans := by
+    eval σ (refutingJ es) = some (.b true) ↔ ∃ e ∈ es, e.live = true ∧ valV σ e.v ≠ e.ans := by
   have hb : ∀ x ∈ es.filterMap clause, ∃ b, eval σ x = some (.b b) := by
     intro x hx
     obtain ⟨e, he, hc⟩ := List.mem_filterMap.1 hx
@@ -41,7 +43,7 @@ theorem eval_refuting (σ : Asg) {es : List Entry} (ht : ∀ e ∈ es, Typed e) 
     split at hc
     · cases hc; exact ⟨_, eval_clauseExpr σ (ht e he)⟩
     · cases hc
-  rw [refuting, (eval_or_node σ _ hb).2]
+  rw [refutingJ, (eval_or_node σ _ hb).2]
   constructor
   · rintro ⟨x, hx, hv⟩
     obtain ⟨e, he, hc⟩ := List.mem_filterMap.1 hx
@@ -76,11 +78,11 @@ def liveCount (es : List Entry) : Nat := (es.filter (·.live)).length
 
 theorem liveCount_le_length (es : List Entry) : liveCount es ≤ es.length := List.length_filter_le _ _
 
-theorem liveCount_demote_le (σ : Asg) : ∀ es : List Entry, liveCount (demote σ es) ≤ liveCount es
+theorem liveCount_demote_le (σ : Asg) : ∀ es : List Entry, liveCount (demoteJ σ es) ≤ liveCount es
   | [] => Nat.le_refl _
   | e :: r => by
     have ih := liveCount_demote_le σ r
-    simp only [liveCount, demote, List.map_cons, List.filter_cons] at ih ⊢
+    simp only [liveCount, demoteJ, List.map_cons, List.filter_cons] at ih ⊢
     by_cases hv : valV σ e.v = e.ans
     · simp only [hv, if_true]
       split <;> simp <;> omega
@@ -88,17 +90,17 @@ theorem liveCount_demote_le (σ : Asg) : ∀ es : List Entry, liveCount (demote 
       split <;> simp <;> omega
 
 theorem liveCount_demote_lt (σ : Asg) : ∀ es : List Entry,
-    (∃ e ∈ es, e.live = true ∧ valV σ e.v ≠ e.ans) → liveCount (demote σ es) < liveCount es
+    (∃ e ∈ es, e.live = true ∧ valV σ e.v ≠ e.ans) → liveCount (demoteJ σ es) < liveCount es
   | [], ⟨_, he, _⟩ => by simp at he
   | e :: r, ⟨e', he', hl, hne⟩ => by
     have hle := liveCount_demote_le σ r
-    simp only [liveCount, demote, List.map_cons, List.filter_cons] at hle ⊢
+    simp only [liveCount, demoteJ, List.map_cons, List.filter_cons] at hle ⊢
     rcases List.mem_cons.1 he' with h | h
     · subst h
       simp only [hne, if_false, Bool.false_eq_true, hl, if_true, List.length_cons]
       omega
     · have ih := liveCount_demote_lt σ r ⟨e', h, hl, hne⟩
-      simp only [liveCount, demote] at ih
+      simp only [liveCount, demoteJ] at ih
       by_cases hv : valV σ e.v = e.ans
       · simp only [hv, if_true]
         split <;> simp <;> omega
@@ -107,21 +109,21 @@ theorem liveCount_demote_lt (σ : Asg) : ∀ es : List Entry,
 
 /-! ### the loop -/
 
-theorem demote_v (σ : Asg) (es : List Entry) : (demote σ es).map (·.v) = es.map (·.v) := by
-  simp only [demote, List.map_map]
+theorem demote_v (σ : Asg) (es : List Entry) : (demoteJ σ es).map (·.v) = es.map (·.v) := by
+  simp only [demoteJ, List.map_map]
   apply List.map_congr_left
   intro e _
   simp only [Function.comp]
   split <;> rfl
 
-theorem mem_demote {σ : Asg} {es : List Entry} {e' : Entry} (h : e' ∈ demote σ es) :
+theorem mem_demote {σ : Asg} {es : List Entry} {e' : Entry} (h : e' ∈ demoteJ σ es) :
     ∃ e ∈ es, e'.v = e.v ∧ e'.ans = e.ans ∧
       ((valV σ e.v = e.ans ∧ e' = e) ∨ (valV σ e.v ≠ e.ans ∧ e'.live = false)) := by
   obtain ⟨e, he, rfl⟩ := List.mem_map.1 h
   refine ⟨e, he, ?_⟩
-  by_cases hv : valV σ e.v = e.ans
-  · simp only [hv, if_true]; exact ⟨rfl, rfl, Or.inl ⟨trivial, rfl⟩⟩
-  · simp only [hv, if_false]; exact ⟨rfl, rfl, Or.inr ⟨hv, rfl⟩⟩
+  split
+  · rename_i hv; exact ⟨rfl, rfl, Or.inl ⟨hv, rfl⟩⟩
+  · rename_i hv; exact ⟨rfl, rfl, Or.inr ⟨hv, rfl⟩⟩
 
 /-- Invariant of the loop and its consequence at exit. -/
 theorem loop_spec {O : Oracle} (hO : OracleCorrect O) (vars : List SVar) (cs : List Expr) (isKey : Entry → Prop) :
@@ -140,8 +142,7 @@ theorem loop_spec {O : Oracle} (hO : OracleCorrect O) (vars : List SVar) (cs : L
   | fuel + 1, problem, es, hfuel, hA, hD, hJ, hP, hK => by
     have hT : ∀ e ∈ es, Typed e := fun e he => by obtain ⟨σ, _, h⟩ := hA e he; exact ⟨σ, h⟩
     rw [loop]
-    simp only
-    cases hr : O vars (problem ++ [refuting es]) with
+    cases hr : O vars (problem ++ [refutingJ es]) with
     | none =>
       refine ⟨rfl, hA, hD, ?_⟩
       intro e he hl σ hσ
@@ -153,7 +154,7 @@ theorem loop_spec {O : Oracle} (hO : OracleCorrect O) (vars : List SVar) (cs : L
       have hs := satV_snoc.1 ((hO vars _).1 σ₁ hr)
       have hσ₁ : SatV vars cs σ₁ := hP σ₁ hs.1
       have hex := (eval_refuting σ₁ hT).1 hs.2
-      have ih := loop_spec hO vars cs isKey fuel (problem ++ [refuting es]) (demote σ₁ es)
+      have ih := loop_spec hO vars cs isKey fuel (problem ++ [refutingJ es]) (demoteJ σ₁ es)
         (by have := liveCount_demote_lt σ₁ es hex; omega)
         (by
           intro e' he'
@@ -179,6 +180,12 @@ theorem loop_spec {O : Oracle} (hO : OracleCorrect O) (vars : List SVar) (cs : L
       rw [demote_v] at ih
       exact ih
 
+theorem filterMap_congr' {α β} {f g : α → Option β} : ∀ {l : List α}, (∀ x ∈ l, f x = g x) →
+    l.filterMap f = l.filterMap g
+  | [], _ => rfl
+  | x :: r, h => by
+    simp only [List.filterMap_cons, h x (by simp), filterMap_congr' fun y hy => h y (List.mem_cons_of_mem _ hy)]
+
 /-! ### `run()` honours the protocol -/
 
 theorem valV_typed_line (keys : List Str) (e : Entry) {σ : Asg} (ht : valV σ e.v = e.ans) (F : SVar → Option Val)
@@ -190,7 +197,7 @@ theorem valV_typed_line (keys : List Str) (e : Entry) {σ : Asg} (ht : valV σ e
   cases live
   · simp only [Bool.false_eq_true, if_false] at hF
     simp only [factLineOf, factLine, hk, hF, Bool.and_false, Bool.false_eq_true, if_false, if_true]
-    cases d <;> rfl
+    try (cases d <;> rfl)
   · simp only [if_true] at hF
     simp only [factLineOf, factLine, hk, hF, Bool.and_true, if_true]
     cases d <;> rfl
@@ -242,7 +249,7 @@ theorem run_correct {O : Oracle} (hO : OracleCorrect O) : SolverCorrect (run O) 
           simp only [es, List.map_map]
           exact List.map_id'' (fun v => rfl) vs
         rw [← hmapv, ← hvs, List.filterMap_map]
-        apply List.filterMap_congr
+        apply filterMap_congr'
         intro e he
         simp only [Function.comp]
         obtain ⟨σa, hσa, hans⟩ := hA e he
@@ -270,7 +277,7 @@ theorem run_correct {O : Oracle} (hO : OracleCorrect O) : SolverCorrect (run O) 
               rw [hF] at hfact
               exact absurd ((hfact σd hσd).trans ((hfact σa hσa).symm.trans hans)) hne
         · have hk' : ks.contains e.v.name = false := by simpa using hk
-          simp [factLineOf, factLine, hk']
+          simp only [factLineOf, factLine, hk', Bool.false_and, Bool.false_eq_true, if_false]
       rw [hlines]
       simp [formatFacts, vs, List.filterMap_append]
 
